@@ -290,6 +290,11 @@ class QintImp(int, Qtype):
         if not issubclass(tright[0], Qtype):
             raise TypeErrorException(tright[0], Qtype)
 
+        if cls.is_const(tright):
+            m_val = int(cast(Qtype, tright[0]).from_bool(tright[1]))
+            if m_val <= 0 or (m_val & (m_val - 1)) != 0:
+                raise Exception(f"Modulo is supported only for 2^n values: {m_val}")
+
         tval = tright[0].sub(tright, tright[0].const(1))
         return tleft[0].bitwise_and(tleft, tval)
 
